@@ -117,7 +117,11 @@ func ruleBatchTimer(c *Ctx, r *R) {
 		b, ok := call.Call.Value.(*ssa.Builtin)
 		return ok && b.Name() == "len" && loadVar(call.Call.Args[0]) == batchCell
 	}
-	pf := &PF{N: 5, InScope: func(f *ssa.Function) bool { return rootFn(f) == root && f != root }}
+	helperOfCell := map[*ssa.Function]bool{}
+	for _, h := range cellHelpers(timerCCell.cell) {
+		helperOfCell[h] = true // methods of a local timer-struct variable
+	}
+	pf := &PF{N: 5, InScope: func(f *ssa.Function) bool { return (rootFn(f) == root && f != root) || helperOfCell[f] }}
 	pf.Instr = func(fn *ssa.Function, in ssa.Instruction, q int) (StateSet, bool) {
 		if q == ERR {
 			return ss(ERR), true
@@ -307,9 +311,11 @@ func ruleBatchElapsed(c *Ctx, r *R) {
 			return false
 		}
 		cal := call.Call.StaticCallee()
-		return cal != nil && fname(cal) == "Since" && cal.Pkg != nil && cal.Pkg.Pkg.Path() == "time" && strings.HasSuffix(path(call.Call.Args[0]), "batchStart")
+		return cal != nil && fname(cal) == "Since" && cal.Pkg != nil && cal.Pkg.Pkg.Path() == "time" && atEverySite(c, call.Call.Args[0], 0, func(a ssa.Value) bool { return strings.HasSuffix(path(a), "batchStart") || onlyTimeNow(a, map[ssa.Value]bool{}) })
 	}
-	isMaxWait := func(v ssa.Value) bool { return strings.HasSuffix(path(v), "maxWait") }
+	isMaxWait := func(v ssa.Value) bool {
+		return atEverySite(c, v, 0, func(a ssa.Value) bool { return strings.HasSuffix(path(a), "maxWait") })
+	}
 	// timer durations
 	n := 0
 	for _, g := range bi.all {
@@ -795,4 +801,60 @@ func chanElemIsNotEmptyStruct(t types.Type) bool {
 	}
 	st, isStruct := ch.Elem().Underlying().(*types.Struct)
 	return !(isStruct && st.NumFields() == 0)
+}
+
+// atEverySite: pred holds of v, or v is a parameter of an unexported top-level helper and pred holds (recursively) of the
+// corresponding argument at every call site.
+func atEverySite(c *Ctx, v ssa.Value, depth int, pred func(ssa.Value) bool) bool {
+	if pred(v) {
+		return true
+	}
+	p, ok := v.(*ssa.Parameter)
+	if !ok || depth > 2 {
+		return false
+	}
+	fn := p.Parent()
+	if fn == nil || fn.Parent() != nil || token.IsExported(fn.Name()) {
+		return false
+	}
+	idx := -1
+	for i, q := range fn.Params {
+		if q == p {
+			idx = i
+		}
+	}
+	sites := callCommonsOf(c, fn)
+	if idx < 0 || len(sites) == 0 {
+		return false
+	}
+	for _, cc := range sites {
+		if idx >= len(cc.Args) || !atEverySite(c, cc.Args[idx], depth+1, pred) {
+			return false
+		}
+	}
+	return true
+}
+
+// onlyTimeNow: v is a local time value that is only ever time.Now() (or still the zero value): the batch-start stamp when it is
+// an SSA register rather than a captured variable.
+func onlyTimeNow(v ssa.Value, seen map[ssa.Value]bool) bool {
+	if seen[v] {
+		return true
+	}
+	seen[v] = true
+	switch x := v.(type) {
+	case *ssa.Call:
+		cal := x.Call.StaticCallee()
+		return cal != nil && cal.Name() == "Now" && cal.Pkg != nil && cal.Pkg.Pkg.Path() == "time"
+	case *ssa.Phi:
+		for _, e := range x.Edges {
+			if !onlyTimeNow(e, seen) {
+				return false
+			}
+		}
+		return true
+	case *ssa.Const:
+		return true // the zero time.Time before the first item
+	}
+	return false
 }
